@@ -52,7 +52,7 @@ MANIFEST = dict(
     technique="Lean 4 proof (mutual structural induction over an id-annotated tree, id-range invariants, state-transformer purity) + "
               "differential correspondence on deep snapshots, id() aliasing and results of operation histories",
 )
-PROP_FILES = ["HtmlVerif/Props/C08.lean", "HtmlVerif/Props/SrcC08.lean", "HtmlVerif/Props/SrcC18.lean"]
+PROP_FILES = ["HtmlVerif/Props/C08.lean", "HtmlVerif/Props/SrcC08.lean", "HtmlVerif/Props/SrcC18.lean", "HtmlVerif/Props/SrcC08b.lean"]
 
 
 # ------------------------------------------------------------------ terms
@@ -821,6 +821,7 @@ def run(tier: str) -> int:
     ck.add_src(['equals_impl', 'Tag_eq', 'TagList_eq', 'HTMLDependency_eq'], quick=250, thorough=2500)
     ck.add_src(['Tag_repr', 'Tag_repr_html', 'TagList_repr', 'TagList_repr_html'], quick=60, thorough=400)
     __import__('srctie_c18').add_src_c18(ck, ['render_tag_or_taglist', 'Tag_str', 'TagList_str'], quick=200, thorough=2000)   # str views: op srcc18 (render mode)
+    ck.add_src(['Tag_copyC08b', 'HTMLDocument_copyC08b', 'copy_tag_nodesC08b', 'HTMLDependency_copyC08b', 'HTMLDependency_reprC08b', 'HTMLDependency_strC08b'], quick=120, thorough=1200); __import__('srctie_c08b').add_src_c08b(ck, ['Tag_copyHC08b', 'HTMLDocument_copyHC08b', 'copy_tag_nodesHC08b', 'HTMLDependency_copyHC08b'], quick=150, thorough=1500)   # copies: by value (op src) and over the heap (op srcc08b)
     ck.correspond(holds=True)
     n_py = snapshot_oracle(ck, rng, 2 if tier == "quick" else 12)
     ck.extra_cov["py_pool_operations"] = n_py
